@@ -975,6 +975,453 @@ def h_ents_w(key: str, val: str, par: str, nk: int, nv: int, npar: int, times: i
         raise Fail("reached")
 
 
+# ================================================================================================ extension
+# faces / original faces / HDR faces (+ surfedges, edges, FACEIDS), brush models (+ physics), water-leaf info, entity lump
+
+WIN3 = [(a, l) for a in range(4) for l in range(4) if a + l <= 3]      # the 10 windows [a:a+l] of a 3-element pool
+WIN2 = [(a, l) for a in range(3) for l in range(3) if a + l <= 2]      # the 6 windows of a 2-element pool
+LSTYLES = [b'\x00\xff\xff\xff', b'\x01\x02\x03\x04']                     # char[4]: exactly four bytes (well-formed)
+FACE_INTS = {"disp": -1, "fog": 3, "lmoff": 1024, "lmx": -3, "lmy": 4, "lsx": 8, "lsy": 9, "smooth": 5, "hid": 1234, "vflags": 1,
+             "side": True, "onnode": False, "dyn": True}
+FACE_SHAPE = {"w1": 4, "og": 0, "tn": False, "pre": True, "p0": 1, "p1": 0, "ls": 0}
+
+
+def _ekey(e):
+    a, b = e.a, e.b
+    return (a.x, a.y, a.z, b.x, b.y, b.z)
+
+
+def _same_edge_structure(want, got, what):
+    """Edge references compared by value AND by aliasing: the same Edge object twice, and an edge next to its own
+    reversed twin (RevEdge), must come back as the same relations."""
+    check(len(want) == len(got), what + ": number of edge references", len(want), len(got))
+    for i in range(len(want)):
+        check(_ekey(want[i]) == _ekey(got[i]), what + ": edge end points changed", i, _ekey(want[i]), _ekey(got[i]))
+    for i in range(len(want)):
+        for j in range(len(want)):
+            check((want[i] is want[j]) == (got[i] is got[j]), what + ": edge sharing changed", i, j)
+            check((want[i].opposite is want[j]) == (got[i].opposite is got[j]), what + ": edge / reversed-edge pairing changed", i, j)
+
+
+def _run_faces(disp, fog, lmoff, lmx, lmy, lsx, lsy, smooth, hid, vflags, side, onnode, dyn,
+               w1, og, tn, pre, p0, p1, ls, w0, n, hdr, cfg):
+    """faces [F0, F1][:n] (+ a parallel HDR list when `hdr`) over one orig-face list [O0]; the edge lists are windows of one
+    surfedge pool [E0, E1, rev(E0)], the primitive lists windows of a pool of two.  F0 carries the symbolic integer / bool
+    fields, F1 the symbolic aliasing choices: its window `w1`, the original faces `og` (0: O0 shared by F0 and F1, 1: F1
+    has an original face that is not in the orig list yet, 2: F1 has none, 3: F0 has none), `tn` (F1 without texinfo),
+    `pre` (surfedges assigned beforehand or built by the writer)."""
+    import srctools.bsp as bm
+    side, onnode, dyn, tn, pre = cbool(side), cbool(onnode), cbool(dyn), cbool(tn), cbool(pre)
+    vit = cfg == "vitamin"
+    (a0, l0), (a1, l1) = WIN3[w0], pick(WIN3, w1)
+    (pa0, pl0), (pa1, pl1) = pick(WIN2, p0), pick(WIN2, p1)
+    og = pick([0, 1, 2, 3], og)
+    styles = pick(LSTYLES, ls)
+    b = new_bsp(cfg)
+    planes = [bm.Plane(_vec(0.0, 0.0, 1.0), 64.0), bm.Plane(_vec(1.0, 0.0, 0.0), 8.0)]
+    verts = [_vec(0.0, 0.0, 0.0), _vec(0.0, 0.0, 64.0), _vec(128.0, 0.0, 64.0), _vec(128.0, 128.0, 64.0)]
+    e0, e1 = bm.Edge(verts[1], verts[2]), bm.Edge(verts[2], verts[3])
+    epool = [e0, e1, e0.opposite]
+    ppool = [bm.Primitive(False, [1, 2, 3], [_vec(64.0, 64.0, 64.0)]), bm.Primitive(True, [], [])]
+    ti, ti2 = _texinfo(bm, 0x80, 64, 128, MATS[0]), _texinfo(bm, 0, 32, 32, MATS[1])
+    b.planes = planes
+    b.vertexes = list(verts)
+    b.texinfo = [ti2, ti]
+    if not vit:
+        b.primitives = list(ppool)
+    if pre:
+        b.surfedges = list(epool)
+
+    def face(plane, edges, tex, orig, prims, ints, bools, sty, hammer):
+        return bm.Face(plane, bools[0], bools[1], edges, tex, ints[0], ints[1], sty, ints[2], 16384.0, (ints[3], ints[4]), (ints[5], ints[6]),
+                       orig, prims, bools[2], ints[7], hammer, ints[8])
+    ints0 = (disp, fog, lmoff, lmx, lmy, lsx, lsy, smooth, vflags)
+    ints1 = (-1, 0, 2048, 0, 1, 2, 3, 0xffffffff, 255)
+    o0 = face(planes[0], epool[0:2], ti2, None, [], (-1, 0, 0, 0, 0, 4, 4, 0, 0), (True, False, True), LSTYLES[0], None)
+    o1 = face(planes[1], epool[1:3], ti2, None, [], (7, 0, 0, 0, 0, 2, 2, 0, 0), (False, False, True), LSTYLES[0], None)
+    origs = [o0]
+
+    def build():
+        fs = []
+        if n >= 1:
+            fs.append(face(planes[0], epool[a0:a0 + l0], ti, None if vit or og == 3 else o0, [] if vit else ppool[pa0:pa0 + pl0], ints0,
+                           (side, onnode, dyn), styles, hid))
+        if n >= 2:
+            fs.append(face(planes[1], epool[a1:a1 + l1], None if tn else ti2, None if vit else (o0, o1, None, o0)[og],
+                           [] if vit else ppool[pa1:pa1 + pl1], ints1, (False, True, False), LSTYLES[1], 77))
+        return fs
+    faces = build()
+    hfaces = build() if hdr and not vit else []
+    b.faces = list(faces)
+    if not vit:
+        b.orig_faces = list(origs)
+        if hdr:
+            b.hdr_faces = list(hfaces)
+    if not saved_or_rejected(b):
+        return False
+    b2 = transfer(b, cfg)
+    gf = b2.faces
+    gh, go = b2.hdr_faces, b2.orig_faces
+    check(isinstance(gf, list) and isinstance(gh, list) and isinstance(go, list), "a face view is not a list", type(gh).__name__, type(go).__name__)
+    gp, gt, gq, gs = b2.planes, b2.texinfo, b2.primitives, b2.surfedges
+    check(len(gf) == n and len(gh) == len(hfaces), "face count", n, len(gf), len(gh))
+    want_origs = [] if vit else (origs + [o1] if n >= 2 and og == 1 else origs)
+    check(len(go) == len(want_origs), "original face count", len(want_origs), len(go))
+    for lst_w, lst_g, what in ((faces, gf, "faces"), (hfaces, gh, "hdr_faces")):
+        for k in range(len(lst_w)):
+            w, g = lst_w[k], lst_g[k]
+            check(gp.index(g.plane) == planes.index(w.plane), what + ": plane", k)
+            check(len(g.edges) == len(w.edges), what + ": edge count", k, len(w.edges), len(g.edges))
+            check((g._dispinfo_ind, tuple(g.lightmap_mins), tuple(g.lightmap_size)) == (w._dispinfo_ind, tuple(w.lightmap_mins), tuple(w.lightmap_size)),
+                  what + ": displacement index / lightmap rectangle", k, (g._dispinfo_ind, g.lightmap_mins, g.lightmap_size))
+            if w.texinfo is None:
+                check(g.texinfo is None, what + ": a face without texinfo got one", k)
+            else:
+                check(g.texinfo is not None, what + ": texinfo lost", k)
+                _cmp_texinfo(g.texinfo, w.texinfo, f"{what}[{k}] texinfo")
+            if vit:
+                check(g.vitamin_flags == w.vitamin_flags, what + ": vitamin flags", w.vitamin_flags, g.vitamin_flags)
+                continue
+            check((bool(g.same_dir_as_plane), bool(g.on_node), bool(g.dynamic_shadows)) == (w.same_dir_as_plane, w.on_node, w.dynamic_shadows),
+                  what + ": bool fields", k, (g.same_dir_as_plane, g.on_node, g.dynamic_shadows))
+            check((g.surf_fog_volume_id, g._lightmap_off, g.smoothing_groups) == (w.surf_fog_volume_id, w._lightmap_off, w.smoothing_groups),
+                  what + ": fog volume / light offset / smoothing groups", k, (g.surf_fog_volume_id, g._lightmap_off, g.smoothing_groups))
+            check(bytes(g.light_styles) == w.light_styles and g.area == w.area, what + ": light styles / area", k, g.light_styles)
+            check(len(g.primitives) == len(w.primitives) and all(gq.index(x) == ppool.index(y) for x, y in zip(g.primitives, w.primitives)),
+                  what + ": primitive list", k, len(g.primitives))
+            if w.orig_face is None:
+                check(g.orig_face is None, what + ": a face without original face got one", k)
+            else:
+                check(g.orig_face is not None and go.index(g.orig_face) == want_origs.index(w.orig_face), what + ": original face reference", k)
+                check((g.hammer_id or 0) == (w.hammer_id or 0), what + ": hammer id", k, w.hammer_id, g.hammer_id)
+    for k in range(len(want_origs)):
+        w, g = want_origs[k], go[k]
+        check(gp.index(g.plane) == planes.index(w.plane) and g._dispinfo_ind == w._dispinfo_ind and tuple(g.lightmap_size) == tuple(w.lightmap_size) and
+              bool(g.same_dir_as_plane) == w.same_dir_as_plane and g.orig_face is None, "original face fields", k)
+    flat_w = [e for lst in (faces, hfaces, want_origs) for f in lst for e in f.edges]
+    flat_g = [e for lst in (gf, gh, go) for f in lst for e in f.edges]
+    if pre:
+        check(len(gs) >= 3, "assigned surfedges lost", len(gs))
+        flat_w, flat_g = flat_w + epool, flat_g + list(gs[:3])
+    _same_edge_structure(flat_w, flat_g, "edges")
+    check(len(b2.vertexes) >= 4 and b2.vertexes[:4] == verts, "vertexes moved", b2.vertexes)
+    _cmp_texinfo(gt[0], ti2, "pre-existing texinfo 0")
+    _cmp_texinfo(gt[1], ti, "pre-existing texinfo 1")
+    return True
+
+
+def h_faces(disp: int, fog: int, lmoff: int, lmx: int, lmy: int, lsx: int, lsy: int, smooth: int, hid: int, vflags: int,
+            side: bool, onnode: bool, dyn: bool, w1: int, og: int, tn: bool, pre: bool, p0: int, p1: int, ls: int,
+            w0: int = 3, n: int = 2, hdr: bool = False, cfg: str = "v20") -> None:
+    _run_faces(disp, fog, lmoff, lmx, lmy, lsx, lsy, smooth, hid, vflags, side, onnode, dyn, w1, og, tn, pre, p0, p1, ls, w0, n, hdr, cfg)
+
+
+def h_faces_w(disp: int, fog: int, lmoff: int, lmx: int, lmy: int, lsx: int, lsy: int, smooth: int, hid: int, vflags: int,
+              side: bool, onnode: bool, dyn: bool, w1: int, og: int, tn: bool, pre: bool, p0: int, p1: int, ls: int,
+              w0: int = 3, n: int = 2, hdr: bool = False, cfg: str = "v20") -> None:
+    if _run_faces(disp, fog, lmoff, lmx, lmy, lsx, lsy, smooth, hid, vflags, side, onnode, dyn, w1, og, tn, pre, p0, p1, ls, w0, n, hdr, cfg):
+        raise Fail("reached")
+
+
+# ------------------------------------------------------------------------------------------------ water-leaf info
+
+def _run_water(t0, t1, f1, w1, h1, n, cfg):
+    """LEAFWATERDATA entries whose surface texinfo is chosen by symbolic index: 0 = a texinfo that is already in the
+    texinfo list, 1 = a new one (appended by the writer, with symbolic flags / size), 2 = another new one."""
+    import srctools.bsp as bm
+    SF = _real(bm.SurfFlags)
+    _valid_flag(SF, f1, 32)
+    b = new_bsp(cfg)
+    tis = [_texinfo(bm, 0x80, 64, 128, MATS[0]), _texinfo(bm, f1, w1, h1, MATS[1]), _texinfo(bm, 0x10, 16, 16, MATS[2])]
+    b.texinfo = [tis[0]]
+    ch = [pick([0, 1, 2], t0), pick([0, 1, 2], t1)][:n]
+    infos = [bm.LeafWaterInfo(64.0 + 8.0 * k, -32.5, tis[ch[k]]) for k in range(n)]
+    b.water_leaf_info = list(infos)
+    if not saved_or_rejected(b):
+        return False
+    b2 = transfer(b, cfg)
+    got = b2.water_leaf_info
+    gt = b2.texinfo
+    check(isinstance(got, list) and len(got) == n, "water info count", n)
+    order = []                   # expected texinfo table: the assigned one, then first uses in order
+    for c in [0] + ch:
+        if c not in order:
+            order.append(c)
+    check(len(gt) == len(order), "texinfo count", len(order), len(gt))
+    for k in range(n):
+        w, g = infos[k], got[k]
+        check(g.surface_z == w.surface_z and g.min_z == w.min_z, "water heights", k, g.surface_z, g.min_z)
+        check(gt.index(g.surface_texinfo) == order.index(ch[k]), "surface texinfo reference", k, ch)
+        _cmp_texinfo(g.surface_texinfo, w.surface_texinfo, f"water info {k} texinfo")
+    if n == 2:
+        check((got[0].surface_texinfo is got[1].surface_texinfo) == (ch[0] == ch[1]), "texinfo sharing changed", ch)
+    _cmp_texinfo(gt[0], tis[0], "pre-existing texinfo")
+    return True
+
+
+def h_water(t0: int, t1: int, f1: int, w1: int, h1: int, n: int, cfg: str = "v20") -> None:
+    _run_water(t0, t1, f1, w1, h1, n, cfg)
+
+
+def h_water_w(t0: int, t1: int, f1: int, w1: int, h1: int, n: int, cfg: str = "v20") -> None:
+    if _run_water(t0, t1, f1, w1, h1, n, cfg) and (n == 0 or t0 == 1):
+        raise Fail("reached")
+
+
+# ------------------------------------------------------------------------------------------------ brush models + physics
+
+def _phys_kvs(k):
+    from srctools.keyvalues import Keyvalues
+    if k == 0:
+        return None
+    if k == 1:
+        return Keyvalues.root()
+    return Keyvalues.root(Keyvalues('solid', [Keyvalues('index', '0'), Keyvalues('mass', '5.5'), Keyvalues('surfaceprop', 'metal grate')]),
+                          Keyvalues('materialtable', [Keyvalues('default', '1')]))
+
+
+def _kv_text(kv):
+    return '' if kv is None else ''.join(kv.serialise())
+
+
+def _run_bmodels(s0: bytes, s1: bytes, n0, n1, ns, kvi, fw, nd, share, swap, n):
+    """worldspawn model M0 (physics: `ns` solids of n0 / n1 symbolic bytes, key-values block by index) and n brush
+    entities; M1's face list is the window `fw` of a pool of 3 faces (2 of them in the face list, the third appended by the
+    writer), its head node `nd` is the world's / another listed node / a node the writer has to append; the second entity
+    shares M1 or has its own model; `swap` reverses the insertion order of the entities in the mapping."""
+    import srctools.bsp as bm
+    from weakref import WeakKeyDictionary
+    from srctools.vmf import VMF, Entity
+    assume(len(s0) == n0 and len(s1) == n1)
+    share, swap = cbool(share), cbool(swap)
+    kvi = pick([0, 1, 2], kvi)
+    fa, fl = pick(WIN3, fw)
+    nd = pick([0, 1, 2], nd)
+    b = new_bsp("v20")
+    planes = [bm.Plane(_vec(0.0, 0.0, 1.0), 64.0), bm.Plane(_vec(1.0, 0.0, 0.0), 8.0)]
+    BC, VF = _real(bm.BrushContents), _real(bm.VisLeafFlags)
+    leafs = [bm.VisLeaf(mkflag(BC, 1), -1, 0, mkflag(VF, 0), _vec(-8.0, -8.0, 0.0), _vec(136.0, 136.0, 64.0), [], [], -1, bytes(24), 65535),
+             bm.VisLeaf(mkflag(BC, 0), 0, 1, mkflag(VF, 2), _vec(-8.0, -8.0, 64.0), _vec(136.0, 136.0, 72.0), [], [], -1, bytes(24), 3)]
+    nodes = [bm.VisTree(planes[0], _vec(-8.0, -8.0, 0.0), _vec(136.0, 136.0, 72.0), [], 0),
+             bm.VisTree(planes[1], _vec(-4.0, -4.0, 0.0), _vec(4.0, 4.0, 8.0), [], 0),
+             bm.VisTree(planes[1], _vec(-2.0, -2.0, 0.0), _vec(2.0, 2.0, 8.0), [], 0)]
+    for k, nod in enumerate(nodes):
+        nod.child_neg, nod.child_pos = leafs[k % 2], leafs[(k + 1) % 2]
+    ti = _texinfo(bm, 0, 64, 64, MATS[0])
+    orig = bm.Face(planes[0], True, False, [], ti, -1, 0, LSTYLES[0], 0, 512.0, (0, 0), (9, 9), None, [], True, 0, None, 0)
+    fpool = [bm.Face(planes[k % 2], True, False, [], ti, -1, 0, LSTYLES[0], 0, 32.0 * (k + 1), (0, 0), (k, k), orig, [], True, 0, 40 + k, 0) for k in range(3)]
+    vmf = VMF()
+    vmf.spawn['classname'] = 'worldspawn'
+    ents = [Entity(vmf, {'classname': 'func_brush', 'targetname': f'br{k}'}) for k in range(n)]
+    for e in ents:
+        vmf.add_ent(e)
+    solids = [s0, s1][:ns]
+    m0 = bm.BModel(_vec(-8.0, -8.0, 0.0), _vec(136.0, 136.0, 72.0), _vec(0.0, 0.0, 0.0), nodes[0], fpool[0:1], _phys_kvs(kvi), list(solids))
+    m1 = bm.BModel(_vec(-4.0, -4.0, 0.0), _vec(4.0, 4.0, 8.0), _vec(1.0, 2.0, 3.0), nodes[nd], fpool[fa:fa + fl])
+    m2 = bm.BModel(_vec(-2.0, -2.0, 0.0), _vec(2.0, 2.0, 8.0), _vec(0.0, 0.0, 0.5), nodes[1], fpool[1:2], _phys_kvs(2), [b'\x01\x02\x03'])
+    models = [m1, m1 if share else m2][:n]
+    mapping = WeakKeyDictionary()
+    mapping[vmf.spawn] = m0
+    for k in (reversed(range(n)) if swap else range(n)):
+        mapping[ents[k]] = models[k]
+    b.planes = planes
+    b.texinfo = [ti]
+    b.visleafs = list(leafs)
+    b.nodes = nodes[:2]
+    b.faces = fpool[:2]
+    b.orig_faces = [orig]
+    b.ents = vmf
+    b.bmodels = mapping
+    if not saved_or_rejected(b):
+        return False
+    b2 = transfer(b, "v20")
+    got = b2.bmodels
+    gents = list(b2.ents.entities)
+    gn, gfaces = b2.nodes, b2.faces
+    check(len(gents) == n and len(got) == 1 + len(gents), "entity / model mapping size", n, len(gents), len(got))
+    want = [m0] + models
+    gl = [got[b2.ents.spawn]] + [got[e] for e in gents]
+    for k, e in enumerate(gents):
+        check(e['targetname'] == f'br{k}' and e['classname'] == 'func_brush' and 'model' not in e, "entity keyvalues", k)
+    want_nodes = nodes[:2] + ([nodes[2]] if n >= 1 and nd == 2 else [])
+    check(len(gn) == len(want_nodes), "node count", len(want_nodes), len(gn))
+    for k in range(len(want)):
+        w, g = want[k], gl[k]
+        check(g.mins == w.mins and g.maxes == w.maxes and g.origin == w.origin, "model bounds / origin", k)
+        check(gn.index(g.node) == want_nodes.index(w.node), "head node reference", k, nd)
+        # by value: a window that only partly overlaps the tail of the face list is appended whole (contiguous ranges), so
+        # the same face may be stored twice
+        check(len(g.faces) == len(w.faces) and all(x in gfaces and x.area == y.area and tuple(x.lightmap_size) == tuple(y.lightmap_size) and
+                                                   x.hammer_id == y.hammer_id for x, y in zip(g.faces, w.faces)), "model face list", k,
+              (fa, fl), len(g.faces))
+        check(len(g._phys_solids) == len(w._phys_solids), "physics solid count", k, len(w._phys_solids), len(g._phys_solids))
+        for x, y in zip(g._phys_solids, w._phys_solids):
+            check(bytes(x) == bytes(y), "physics solid bytes changed", k, list(y), list(x))
+        check(_kv_text(g.phys_keyvalues) == _kv_text(w.phys_keyvalues), "physics key-values changed", k, _kv_text(g.phys_keyvalues))
+        if w.phys_keyvalues is None and not w._phys_solids:
+            check(g.phys_keyvalues is None, "a model without physics got a key-values block", k)
+    if n == 2:
+        check((gl[1] is gl[2]) == share, "model sharing between entities changed", share)
+    return True
+
+
+def h_bmodels(s0: bytes, s1: bytes, kvi: int, fw: int, nd: int, share: bool, swap: bool, n0: int, n1: int, ns: int, n: int) -> None:
+    _run_bmodels(s0, s1, n0, n1, ns, kvi, fw, nd, share, swap, n)
+
+
+def h_bmodels_w(s0: bytes, s1: bytes, kvi: int, fw: int, nd: int, share: bool, swap: bool, n0: int, n1: int, ns: int, n: int) -> None:
+    if _run_bmodels(s0, s1, n0, n1, ns, kvi, fw, nd, share, swap, n) and (ns == 0 or n0 == 0 or s0[0] == 0):
+        raise Fail("reached")
+
+
+# ------------------------------------------------------------------------------------------------ entity lump (piece-wise)
+
+class _PieceBytes:
+    """The bytes value b''.join(parts) kept as its written pieces (binary ChunkSink, DESIGN section 1 rule (i)): the
+    entity lump travels from write_ent_data's BytesIO to _lmp_read_ents' `.decode()` -> Tokenizer as the list of
+    pieces, decoded piece by piece (concrete byte runs by the real codec, a symbolic byte by the codec's definition:
+    ascii, and surrogateescape for 0x80..0xff).  Chunk boundaries are immaterial to the tokenizer (C03)."""
+
+    def __init__(self, parts):
+        self.parts = parts
+
+    @property
+    def __class__(self):
+        return bytes
+
+    def __len__(self):
+        n = 0
+        for p in self.parts:
+            n = n + len(p)
+        return n
+
+    def decode(self, encoding='utf-8', errors='strict'):
+        if encoding != 'ascii' or errors != 'surrogateescape':
+            raise SystemExit(2)
+        from crosshair.tracers import NoTracing
+        out = []
+        for p in self.parts:
+            with NoTracing():
+                conc = type(p) in (bytes, bytearray)
+            if conc:
+                with NoTracing():
+                    out.append(bytes(p).decode('ascii', 'surrogateescape'))
+                continue
+            run = []
+            for i in range(len(p)):
+                c = p[i]
+                with NoTracing():
+                    is_int = type(c) is int
+                if is_int:
+                    run.append(c)
+                    continue
+                if run:
+                    with NoTracing():
+                        out.append(bytes(run).decode('ascii', 'surrogateescape'))
+                    run = []
+                out.append(chr(c) if c < 0x80 else chr(0xDC00 + c))
+            if run:
+                with NoTracing():
+                    out.append(bytes(run).decode('ascii', 'surrogateescape'))
+        return out
+
+
+class _PieceBytesIO:
+    """BytesIO as used by write_ent_data (write + getvalue only); anything else is a harness error."""
+
+    def __init__(self, initial=b''):
+        if len(initial):
+            raise SystemExit(2)
+        self.parts = []
+
+    def write(self, data):
+        self.parts.append(data)
+        return len(data)
+
+    def getvalue(self):
+        return _PieceBytes(list(self.parts))
+
+
+ENT_KEYS = ['speed', 'Key With,Commas', 'spawn\udcffflags', 'a/b;c']          # hashed by Entity: chosen by index
+ENT_CTX = [('', ''), ('a\\', 'n'), ('x"', '"y'), ('1 2', '\t'), ('\n', ' ')]           # constant text around the symbolic slot
+ENT_TIMES = [-1, 1, 0, 7, 2 ** 31, -2 ** 40]
+ENT_SLOTS = ("val", "par", "tgt", "inp", "out", "key")
+
+
+def _slot_char_ok(c):
+    # every ASCII code point except NUL (the lump is a C string; a lone NUL token is its terminator); the two ends of the
+    # surrogate-escaped byte range; one character the lump cannot hold
+    return 0 < ord(c) < 0x80 or c == '\udc80' or c == '\udcff' or c == '\xe9'
+
+
+def _run_entlump(s, ki, ti, comma, force, inst, ns, slot, ctx):
+    """worldspawn + one entity with a key/value pair and two outputs; ONE text slot (value, output parameter, target,
+    input name, output name or key) is `pre + s + post` with s symbolic of exact length ns, everything else constant."""
+    import srctools.bsp as bm
+    from srctools.vmf import VMF, Entity, Output
+    assume(len(s) == ns)
+    for c in s:
+        assume(_slot_char_ok(c))
+    comma, force, inst = cbool(comma), cbool(force), cbool(inst)
+    pre, post = ENT_CTX[ctx]
+    f = {"key": pick(ENT_KEYS, ki), "val": "v 1", "out": "OnOpen", "tgt": "door_1", "inp": "Trigger", "par": "p"}
+    f[slot] = ('k' + pre + s + post) if slot == "key" else pre + s + post      # 'k': never one of the constant keys
+    if comma and slot in ("par", "tgt", "inp"):
+        for c in s:
+            assume(c != ',')        # the comma format cannot carry a comma in these fields (Output.parse docstring)
+    times = pick(ENT_TIMES, ti)
+    if SYMBOLIC:
+        bm.BytesIO = _PieceBytesIO
+    vmf = VMF()
+    vmf.spawn['classname'] = 'worldspawn'
+    vmf.spawn['mapversion'] = '17'
+    ent = Entity(vmf, {'classname': 'func_door', 'origin': '1 2 3'})
+    ent[f["key"]] = f["val"]
+    ent.add_out(Output(f["out"], f["tgt"], f["inp"], f["par"], 1.5, times=times, comma_sep=comma,
+                       inst_out='inst_a' if inst else None, inst_in='rl-b' if inst else None))
+    ent.add_out(Output('OnClose', 'relay', 'Kill', '', 0.0, times=-1, comma_sep=comma))
+    vmf.add_ent(ent)
+    b = new_bsp("v21")
+    b.out_comma_sep = comma if force else None
+    b.ents = vmf
+    if not saved_or_rejected(b):
+        return False
+    b2 = transfer(b, "v21")
+    try:
+        got = b2.ents
+    except ValueError:
+        # 0x1b is the output separator of the format: a text containing it cannot be represented, the reader says so
+        check('\x1b' in s, "the written entity lump cannot be read back", slot)
+        return False
+    check(got.spawn['classname'] == 'worldspawn' and got.spawn['mapversion'] == '17' and got.map_ver == 17, "worldspawn")
+    ents = list(got.entities)
+    check(len(ents) == 1, "entity count", len(ents))
+    g = ents[0]
+    check(len(g) == 3, "number of keyvalues", len(g), [k for k in g.keys()])
+    check(g['classname'] == 'func_door' and g['origin'] == '1 2 3', "constant keyvalues")
+    check(f["key"] in g and g[f["key"]] == f["val"], "keyvalue changed", f["key"], f["val"], [(k, v) for k, v in g.items()])
+    check(len(g.outputs) == 2, "output count", len(g.outputs))
+    o = g.outputs[0]
+    check((o.output, o.target, o.input, o.params) == (f["out"], f["tgt"], f["inp"], f["par"]), "output text fields changed",
+          (f["out"], f["tgt"], f["inp"], f["par"]), (o.output, o.target, o.input, o.params))
+    check((o.delay, o.times, o.comma_sep, o.inst_out, o.inst_in) == (1.5, times, comma, 'inst_a' if inst else None, 'rl-b' if inst else None),
+          "output delay / times / separator / instance names", (o.delay, o.times, o.comma_sep, o.inst_out, o.inst_in))
+    o = g.outputs[1]
+    check((o.output, o.target, o.input, o.params, o.delay, o.times, o.comma_sep, o.inst_out, o.inst_in) ==
+          ('OnClose', 'relay', 'Kill', '', 0.0, -1, comma, None, None), "second output changed")
+    check(b2.out_comma_sep is comma, "separator detected differently", b2.out_comma_sep)
+    return True
+
+
+def h_entlump(s: str, ki: int, ti: int, comma: bool, force: bool, inst: bool, ns: int, slot: str, ctx: int = 0) -> None:
+    _run_entlump(s, ki, ti, comma, force, inst, ns, slot, ctx)
+
+
+def h_entlump_w(s: str, ki: int, ti: int, comma: bool, force: bool, inst: bool, ns: int, slot: str, ctx: int = 0) -> None:
+    if _run_entlump(s, ki, ti, comma, force, inst, ns, slot, ctx) and (ns == 0 or s[0] == '"' or s[0] == '\udcff'):
+        raise Fail("reached")
+
+
 def obligations(tier):
     quick = tier == "quick"
     B = 300 if quick else 1800
